@@ -8,12 +8,12 @@
 (***************************************************************************)
 EXTENDS Sanitize, IOUtils
 Obs == JsonDeserialize(IOEnv.OBS_FILE)
-Units == Obs.units      \* [name, cfg, form, redacted]
+Units == Obs.units      \* [name, cfg, form, header ("-" | "cookie" | "set-cookie": the value is one cookie inside that header), redacted]
 Runs == Obs.runs        \* dead = sinks whose artifact is not well-formed / incomplete (not judged); [cfg, sanitize, dead, routes : <<[route, name, k (slot), present : [console, curl, junit, vcr, har]]>>]
 Hists == Obs.hists      \* [steps : <<[kind, op, name]>>, outs : <<[step, form, redacted]>>] - one process, re-configured on the way
 VARIABLES what, i
 jvars == <<vars, what, i>>
-JInit == /\ kind = "judge" /\ nameIx = 0 /\ cfgKind = "-" /\ route = "-" /\ sink = "-" /\ sanitize = TRUE /\ sens = FALSE /\ omitted = FALSE
+JInit == /\ kind = "judge" /\ nameIx = 0 /\ cfgKind = "-" /\ route = "-" /\ sink = "-" /\ sanitize = TRUE /\ sens = FALSE /\ omitted = FALSE /\ pos = "-" /\ sep = "-"
          /\ \/ what = "unit" /\ i \in 1..Len(Units)
             \/ what = "run" /\ i \in 1..Len(Runs)
             \/ what = "hist" /\ i \in 1..Len(Hists)
@@ -21,7 +21,9 @@ JNext == UNCHANGED jvars
 JSpec == JInit /\ [][JNext]_jvars
 
 UnitVerdict == LET u == Units[i] IN
-               IF u.redacted = (u.form = "curl-api-userinfo" \/ Sensitive(u.name, Cfg(u.cfg))) THEN {}
+               IF u.redacted = (IF u.header = "cookie" THEN SensCarrier("gen-cookie", u.name, Cfg(u.cfg))
+                                ELSE IF u.header = "set-cookie" THEN SensCarrier("resp-set-cookie", u.name, Cfg(u.cfg))
+                                ELSE u.form = "curl-api-userinfo" \/ Sensitive(u.name, Cfg(u.cfg))) THEN {}
                ELSE {<<u.form, "-", IF u.redacted THEN "over-redacted" ELSE "leak">>}
 RunVerdict == LET r == Runs[i] IN
               UNION {LET x == r.routes[k] IN
